@@ -12,6 +12,7 @@ import asyncio
 from .loop import SimServer
 
 TICK = 0.001
+KERNEL_BUF = 65536  # bytes a closing side may leave to the kernel (socket send buffer)
 
 # segmentation policies: name -> (lo, hi) bytes per delivery; special names below
 SEG_POLICIES = ("whole", "byte", "tiny", "small", "mss", "mixed", "after_cr")
@@ -163,10 +164,12 @@ class SimTransport(asyncio.Transport):
             return
         self._closing = True
         self.loop.note("close", self.name)
-        if not self.out.buf:
+        if len(self.out.buf) <= KERNEL_BUF:
+            # what is left fits the kernel's send buffer: close() completes locally at once,
+            # the peer still receives the bytes and then EOF when it reads
             self._finish_close(None)
         else:
-            self.out.eof = True  # flush then close
+            self.out.eof = True  # flush down to the kernel buffer size, then close
             self.net._schedule_delivery(self.out)
 
     def abort(self):
@@ -517,6 +520,8 @@ class SimNet:
                     return
                 if not src._closed:
                     src._maybe_resume_protocol()
+                    if src._closing and len(pipe.buf) <= KERNEL_BUF:
+                        src._finish_close(None)
             if pipe.kill_at is not None and pipe.delivered >= pipe.kill_at:
                 kind = pipe.kill_kind
                 pipe.kill_at = None
